@@ -194,6 +194,45 @@ def check_no_scheme(ck, fi):
     return len(sites)
 
 
+def check_decorator_probes(ck, fi, strip_slash: bool):
+    """Whatever rewriting a trailing-slash decorator applies to the request path, the *final* Location must be a path
+    on this host.  The wrapper is evaluated concretely for request paths with doubled leading slashes, a backslash
+    after the first slash, an absolute-form target, and an ordinary path: every redirect target reached on a fully
+    decided path must start with exactly one '/'.  (A transformation applied after the leading-slash collapse —
+    replacing characters, unquoting — that re-creates '//' is caught here, wherever it is written.)"""
+    from ..x_peval import UNK, peval, try_fold, module_constants, make_resolver
+
+    sites = {n.id: c for n, c in _redirect_sites(fi)}
+    if not sites:
+        raise AnalysisError("%s: no self.redirect call" % fi.qualname)
+    tail = "/" if strip_slash else ""
+    probes = ["//evil.example/x", "/\\evil.example/x", "///evil.example/x", "/\\/evil.example/x", "http://evil.example/x", "/ok/page", "/%2Fevil.example/x"]
+    n_dec = 0
+    for path in probes:
+        for query in ("", "a=1"):
+            seen = []
+
+            def hook(n, env, seen=seen):
+                if n.id in sites:
+                    t = q.arg(sites[n.id], 0, "url")
+                    seen.append((try_fold(t, env) if t is not None else UNK, bool(env.get("@undecided"))))
+                return None
+
+            init = module_constants(fi)
+            init.update({"self.request.path": path + tail, "self.request.uri": path + tail + (("?" + query) if query else ""), "self.request.query": query,
+                         "self.request.method": "GET", "@resolve": make_resolver(ck.repo, WEB, None)})
+            peval(fi.cfg, init, hook=hook, track=lambda t: True)
+            for target, und in seen:
+                if und or target is UNK or not isinstance(target, str):
+                    continue
+                n_dec += 1
+                ok = target.startswith("/") and not target.startswith("//")
+                ck.ob("C28.final-target", fi, sites[next(iter(sites))], ok, "for the request path %r the Location is a path on this host (it is %r)" % (path + tail, target),
+                      construct="request path %s yields an off-site Location" % ("with a backslash after the first slash" if "\\" in path else "with doubled leading slashes" if path.startswith("//") else "in absolute form" if "://" in path else "of another kind"))
+    if n_dec < 4:
+        raise AnalysisError("%s: the redirect target could be evaluated concretely for only %d probes" % (fi.qualname, n_dec))
+
+
 def _redirect_sites(fi):
     return [(n, c) for n, c in fi.cfg.find(lambda x: isinstance(x, ast.Call) and isinstance(x.func, ast.Attribute) and x.func.attr == "redirect" and q.dotted(x.func.value) == "self")]
 
@@ -245,31 +284,53 @@ def check_login_redirect(ck, fi):
 def run(ck):
     ck.rule("C28.same-site", "every self.redirect whose target derives from self.request.path/uri is, on all paths, behind a startswith('//') rejection of that path or built from its lstrip('/')")
     ck.rule("C28.no-scheme", "the trailing-slash decorators build their target as a literal '/' followed by request data (or behind a startswith('/') test), so it is never scheme-qualified")
+    ck.rule("C28.final-target", "the trailing-slash decorators, evaluated on sample request paths (doubled slashes, backslash after the slash, absolute form): the final Location starts with exactly one '/' — no rewriting after the leading-slash collapse re-opens it")
     ck.rule("C28.login-only", "authenticated redirects to self.get_login_url(), with request data only inside urlencode(...)")
-    ck.rule("C28.inventory", "the redirects tornado/web.py derives from the request are exactly the anchored ones (a new request-derived redirect must be analysed)")
+    ck.rule("C28.inventory", "every other redirect in tornado/web.py whose target derives from the request path is guarded the same way (helpers used only by the anchored functions are judged inlined there)")
     total = 0
     for qn, kind in ANCHORS:
         fi = F(ck, WEB, qn)
         n = check_path_redirects(ck, fi) if kind == "path" else check_login_redirect(ck, fi)
         if kind == "path" and "wrapper" in qn:
             check_no_scheme(ck, fi)
+            check_decorator_probes(ck, fi, strip_slash=qn.startswith("removeslash"))
         ck.floor("C28.same-site" if kind == "path" else "C28.login-only", n, 1, "self.redirect calls in %s" % qn)
         total += n
-    # inventory: any other function of web.py that redirects to something request-derived gets the same rule
+    # inventory: any other function of web.py that redirects to something derived from the request path gets the same
+    # rule.  A private helper whose every use is a call from an anchored function (fixpoint) is not "another
+    # function": it was inlined into its callers above and judged there, guard and all.
+    from ..rules import callers_of, references_to
+
     anchored = {a for a, _ in ANCHORS}
     m = ck.repo.module(WEB)
-    for qn, fi in m.funcs.items():
-        if qn in anchored:
+
+    def reached_only_from_anchors(f, depth=3):
+        if f.qualname in anchored:
+            return True
+        if depth <= 0 or not f.name.startswith("_") or f.name.startswith("__"):
+            return False
+        calls = callers_of(ck.repo, f.name, [WEB])
+        refs = references_to(ck.repo, f.name, [WEB])
+        if not calls or len(refs) != len(calls):
+            return False
+        return all(c_.qualname != f.qualname and reached_only_from_anchors(c_, depth - 1) for c_, _x in calls)
+
+    for qn, fi0 in list(m.funcs.items()):
+        if qn in anchored or not _redirect_sites(fi0):
             continue
-        sites = _redirect_sites(fi)
-        if not sites:
+        if reached_only_from_anchors(fi0):
+            for c_, _x in callers_of(ck.repo, fi0.name, [WEB]):
+                nc = F(ck, WEB, c_.qualname)
+                if any(q.call_attr(x) == fi0.name for x in q.calls(nc.node)):
+                    raise AnalysisError("%s redirects on behalf of %s but could not be inlined there" % (fi0.qualname, c_.qualname))
             continue
-        states = flow_taint(fi, ("self.request",), sanitizers=ENCODERS, expr_hook=_strips_slash, clean_on_edge=_via_locals(fi, _guard_cleaner))
-        for node, c in sites:
+        fi = F(ck, WEB, qn)
+        hs = HelperSummaries(ck.repo, fi, lambda h: _via_locals(h, _guard_cleaner), ENCODERS, _strips_slash, self_classes=("RequestHandler", "StaticFileHandler"))
+        states = flow_taint(fi, PATH_SOURCES, sanitizers=ENCODERS, clean_on_edge=hs.cleaner(_via_locals(fi, _guard_cleaner)), expr_hook=hs.expr_hook, on_node=hs.on_node)
+        for node, c in _redirect_sites(fi):
             target = q.arg(c, 0, "url")
-            derived = target is not None and any(expr_tainted(target, t, ENCODERS, expr_hook=_strips_slash) for t in states.get(node.id, []))
-            ck.use(fi)
-            ck.ob("C28.inventory", fi, c, not derived, "a redirect outside the anchored functions does not take its target from the request")
+            derived = target is not None and any(expr_tainted(target, t, ENCODERS, expr_hook=hs.expr_hook) for t in states.get(node.id, []))
+            ck.ob("C28.inventory", fi, c, not derived, "a redirect outside the anchored functions does not send the client to an unguarded target built from the request path")
 
 
 
@@ -320,6 +381,8 @@ MUTANTS = [
     ("addslash: lstrip() without '/' (strips whitespace only)", _in("addslash.<locals>.wrapper", replace_expr(lambda n: isinstance(n, ast.Call) and q.call_attr(n) == "lstrip", lambda n: ast.Call(func=n.func, args=[], keywords=[]))), "C28.same-site"),
     ("removeslash: normalisation only when the target starts with '//' (seeded C28-adv3)", _in("removeslash.<locals>.wrapper", replace_stmt(_is_strip_fix, lambda st: [ast.If(test=parse_expr("uri.startswith('//')"), body=[st], orelse=[])])), "C28.no-scheme"),
     ("addslash: only the slashes are stripped, no leading '/' put back", _in("addslash.<locals>.wrapper", replace_expr(_unstrip, lambda n: n.right)), "C28.no-scheme"),
+    ("addslash: backslashes turned into slashes after the leading-slash collapse (seeded C28-adv6)", _in("addslash.<locals>.wrapper", replace_stmt(lambda st: isinstance(st, ast.Assign) and "lstrip" in _u(st.value), lambda st: [st, parse_stmt("uri = uri.replace('\\\\', '/')")])), "C28.final-target"),
+    ("removeslash: target percent-decoded after the leading-slash collapse", _in("removeslash.<locals>.wrapper", replace_stmt(_is_strip_fix, lambda st: [st, parse_stmt("uri = uri.replace('%2F', '/')")])), "C28.final-target"),
     ("removeslash: raw path re-assigned after the normalisation", _in("removeslash.<locals>.wrapper", _reassign_after_sanitizer), "C28.same-site"),
     ("addslash: '//' prepended instead of '/'", _in("addslash.<locals>.wrapper", replace_expr(_unstrip, lambda n: ast.BinOp(left=ast.Constant(value="//"), op=ast.Add(), right=n.right))), "C28.same-site"),
     ("authenticated: falls back to the requested URI when no login URL is configured", _in("authenticated.<locals>.wrapper", replace_stmt(lambda st: isinstance(st, ast.Assign) and "get_login_url" in _u(st.value), lambda st: [parse_stmt("url = self.get_login_url() or self.request.uri")])), "C28.login-only"),
